@@ -3,7 +3,9 @@
   Every theorem quantifies over `Reachable s`, i.e. over EVERY interleaving of the atomic actions
   of Serve / handleLoop / handle / Shutdown / Close / HTTPProxy.run and of the environment
   (clients, origin, context, callers) from the initial state; no bound on the number of
-  connections or steps.  Helper lemmas: `Lemmas/C11Step|C11|C11Inv|C11Progress.lean`.
+  connections or steps, and over both kinds of context handed to `Shutdown` (one that may expire =
+  positive shutdown timeout, one that never expires = shutdown timeout 0, section G).
+  Helper lemmas: `Lemmas/C11Step|C11|C11Inv|C11Progress|C11Ctx.lean`.
 
   Reading of the ghost fields of a connection (`Model/C11.lean`):
     regClosing  = value of `closing` when the counter was incremented for the connection
@@ -12,6 +14,7 @@
     lastClose   = the last response head carried `Connection: close`
 -/
 import FwdVerif.Lemmas.C11Progress
+import FwdVerif.Lemmas.C11Ctx
 
 namespace FwdVerif
 namespace C11
@@ -351,6 +354,108 @@ example : ∃ s, Reachable s ∧ s.lock = .shutdown ∧ counted (s.conns 0).pc =
   rw [hs] at hv
   simp only [Option.map_some, Option.some.injEq, Prod.mk.injEq] at hv
   exact ⟨s, reachable_run Reachable.init hs, hv.1, hv.2.1, hv.2.2⟩
+
+/-! ## G. The context handed to `Shutdown` (`shutdownContext`: the configured shutdown timeout)
+
+  `noLimit` = the context has no deadline (shutdown timeout 0, "no limit"; rig b: a context that is
+  never done).  It is a parameter of the initial state; the theorems below hold for every reachable
+  state of such a system. -/
+
+/-- the kind of context is fixed: no action changes it -/
+theorem c11_nolimit_fixed {s s' : State} (a : Action) (hst : step s a = some s') :
+    s'.noLimit = s.noLimit :=
+  step_noLimit a hst
+
+/-- a context without deadline never expires -/
+theorem c11_nolimit_ctx_never_expires {s : State} (h : Reachable s) (hn : s.noLimit = true) :
+    s.ctxExpired = false :=
+  (ctxinv_reachable h).noExpiry hn
+
+/-- … hence `Shutdown` never returns the context's error -/
+theorem c11_nolimit_shutdown_never_errs {s : State} (h : Reachable s) (hn : s.noLimit = true) :
+    s.shut ≠ .retErr ∧ s.shut ≠ .doneErr := by
+  have hc := c11_nolimit_ctx_never_expires h hn
+  constructor <;> intro hs
+  · have := (inv_reachable h).errCtx (Or.inl hs); rw [hc] at this; cases this
+  · have := (inv_reachable h).errCtx (Or.inr hs); rw [hc] at this; cases this
+
+/-- with a never-expiring context `Shutdown` returns nil EXACTLY when its poll finds the counter at
+    0: while it waits, whatever happens (any action of any goroutine or of the environment), it
+    reaches `return nil` iff that action is its own poll and the counter is 0 — and it never reaches
+    `return ctx.Err()` -/
+theorem c11_nolimit_shutdown_nil_iff_drained {s s' : State} (h : Reachable s) (hn : s.noLimit = true)
+    (hw : s.shut = .polling ∨ s.shut = .selecting) (a : Action) (hst : step s a = some s') :
+    (s'.shut = .retNil ↔ (a = .shutPoll ∧ s.counter = 0)) ∧ s'.shut ≠ .retErr := by
+  have hc := c11_nolimit_ctx_never_expires h hn
+  rcases step_shut_waiting a hst hw with ⟨ha, hs⟩ | ⟨ha, hs⟩ | ⟨_, he, _⟩ | ⟨h1, h2, hs⟩
+  · subst ha
+    by_cases h0 : s.counter = 0
+    · simp [hs, h0]
+    · simp [hs, h0]
+  · subst ha; simp [hs]
+  · rw [hc] at he; cases he
+  · rw [hs]
+    rcases hw with hw | hw <;> simp [hw, h1]
+
+/-- whatever the context: once `run` is under way, `Close` is called only after the context
+    expired (it is `run` itself that calls it, after `Shutdown` returned the context's error) -/
+theorem c11_run_closes_only_after_expiry {s : State} (h : Reachable s) (hr : s.runner ≠ .idle)
+    (hc : s.close ≠ .idle) : s.shut = .doneErr ∧ s.ctxExpired = true := by
+  have hs := (ctxinv_reachable h).runClose hr hc
+  exact ⟨hs, (inv_reachable h).errCtx (Or.inr hs)⟩
+
+/-- with a never-expiring context `run` never calls `Close`: from the cancellation on, `Close` stays
+    idle (so no socket is ever closed by a sweep of the map) -/
+theorem c11_nolimit_run_never_closes {s : State} (h : Reachable s) (hn : s.noLimit = true)
+    (hr : s.runner ≠ .idle) : s.close = .idle ∧ s.runner ≠ .inClose := by
+  have hci : s.close = .idle := by
+    cases hcl : s.close with
+    | idle => rfl
+    | _ =>
+      have := (c11_run_closes_only_after_expiry h hr (by rw [hcl]; simp)).2
+      rw [c11_nolimit_ctx_never_expires h hn] at this; cases this
+  exact ⟨hci, fun hic => (ctxinv_reachable h).inClose hic hci⟩
+
+/-- … and `run` returns only after `Shutdown` returned nil, i.e. (B) after the counter reached 0
+    with every served connection closed by its own handler -/
+theorem c11_nolimit_run_returns_after_drain {s s' : State} (h : Reachable s) (hn : s.noLimit = true)
+    (hst : step s .runRet = some s') :
+    s.shut = .doneNil ∧ s.close = .idle ∧
+    ∀ c, preReg (s.conns c).pc = true ∨
+      ((s.conns c).regClosing = true ∧ (s.conns c).reads = 0 ∧ (s.conns c).forwards = 0 ∧
+        noService (s.conns c).pc = true) ∨
+      (pastDec (s.conns c).pc = true ∧ (s.conns c).sockClosed = true) := by
+  have hf : s.runner = .finished := by
+    simp only [step] at hst
+    split at hst
+    · assumption
+    · simp at hst
+  have hnc := c11_nolimit_run_never_closes h hn (by rw [hf]; simp)
+  have hs : s.shut = .doneNil := by
+    rcases (ctxinv_reachable h).fin hf with h1 | h1
+    · exact h1
+    · rw [hnc.1] at h1; cases h1
+  exact ⟨hs, hnc.1, fun c => c11_after_nil_no_service h hs c⟩
+
+/-- the run goroutine of a proxy with shutdown timeout 0, one request at the origin when the run
+    context is cancelled -/
+def cancelWithRequestAtOrigin : List Action :=
+  openConn 0 ++ toOrigin 0 {} ++ [.cancel, .runCloseListeners, .runShutdown, .shutLock, .shutCloseCh, .shutPoll]
+
+-- no limit: the context cannot expire, Shutdown keeps polling; the exchange completes, then run returns
+example : (run initNoLimit (cancelWithRequestAtOrigin ++ [.ctxExpire])).isSome = false := by decide
+
+example : (run initNoLimit (cancelWithRequestAtOrigin ++
+    [.shutTimer, .shutPoll, .originAnswer 0, .conn 0 .respReady, .conn 0 .writeHead, .conn 0 .writeDone,
+     .conn 0 .sockClose, .conn 0 .counterDec, .shutTimer, .shutPoll, .shutUnlock, .runAfterShutdown, .runRet,
+     .respSeen 0 true, .closedSeen 0])).map (fun s => (view 0 s, s.runner, s.close)) =
+    some ((0, true, .waitingForLockUnreg, true, .doneNil), .finished, .idle) := by decide
+
+-- a deadline: once it has passed, run cuts the same exchange (the excused path of the property)
+example : (run init (cancelWithRequestAtOrigin ++
+    [.ctxExpire, .shutCtx, .shutUnlock, .runAfterShutdown, .closeLock, .closeCloseCh, .closeConn 0, .closeAll,
+     .closeUnlock, .runAfterClose, .runRet, .closedSeen 0])).map (fun s => (view 0 s, s.runner, s.close)) =
+    some ((1, true, .awaitOrigin, true, .doneErr), .finished, .done) := by decide
 
 end C11
 end FwdVerif
